@@ -48,7 +48,7 @@ ASSUMPTIONS = [
 MUST_REACH = {"steps": 5000, "states": 300, "orphans_adopted": 20, "cascade_kills": 20, "region_moves": 20,
               "local_id_changes": 10, "teardowns": 20, "futures_resolved": 20, "futures_cancelled": 20, "reparents": 20,
               "multi_orphan_lists": 10, "kills_of_unknown_with_orphans": 5, "steps_without_loop_iteration": 50, "requests_pending_when_object_left": 5, "object_manager_configs_covered": 3,
-              "avatar_updates": 50, "multi_object_messages": 20, "viewer_cache_hits": 20, "viewer_cache_chains_loaded": 5,
+              "avatar_updates": 50, "multi_object_messages": 20, "viewer_cache_hits": 20, "viewer_cache_hits_only_in_rewritten_files": 4, "viewer_cache_chains_loaded": 5,
               "viewer_cache_hits_on_tracked_objects": 5, "requests_abandoned_while_others_wait": 20}
 
 HA = (1000 << 32) | 1000
@@ -62,6 +62,8 @@ CACHED = {(6, 43): (6, 0), (7, 50): (7, 1), (8, 57): (8, 6)}
 # the other viewer's cache still has an older state of the same objects (another CRC, not linked to anything)
 CACHED_OLDER = {(k[0], k[1] + 1000): (v[0], 0) for k, v in CACHED.items()}
 ALL_CACHED = {**CACHED, **CACHED_OLDER}
+# a viewer writes its cache again while the proxy runs: the second generation of the files knows one more state
+GEN1_ONLY = {(8, 3057): (8, 0)}
 # not everything in the scene is a plain prim: trees, grass and particle systems are objects like any other (and, unlike avatars,
 # die with the object they are linked to)
 def pcode_of(full):
@@ -178,7 +180,7 @@ def compressed_payload(local, full, parent, crc, seed_key):
     raise RuntimeError("could not build a compressed payload")
 
 
-def write_viewer_caches(home):
+def write_viewer_caches(home, gen=0):
     """Two viewers' object caches for region A.  Each current entry sits in one of them while the other holds a stale entry
     (another CRC) for the same local id - in both orders, since the order in which viewer directories are found is arbitrary."""
     import os
@@ -196,22 +198,26 @@ def write_viewer_caches(home):
                                                          ((2000 * 256) << 32) | (2001 * 256):
                                                              (__import__("uuid").UUID(int=5), [(6, 43, cur[(6, 43)])])})
     write_viewer_dir(os.path.join(home, ".viewer_two"), {HA: (__import__("uuid").UUID(int=CACHE_ID_A.int), b)}, aligned8=True)
+    if gen:
+        c = [(k[0], k[1], compressed_payload(k[0], FULL[v[0]], v[1], k[1], ("gen1", k))) for k, v in GEN1_ONLY.items()]
+        write_viewer_dir(os.path.join(home, ".viewer_three"), {HA: (__import__("uuid").UUID(int=CACHE_ID_A.int), c)})
 
 
-_HOME = []
+_HOME = {}
 
 
-def _viewer_home():
-    """The two viewers' cache directories, written once per process (removed when the process ends)."""
-    if not _HOME:
+def _viewer_home(gen=0):
+    """The viewers' cache directories (two generations of them: what is on disk before and after a viewer has written its cache
+    again), written once per process (removed when the process ends)."""
+    if gen not in _HOME:
         import atexit
         import shutil
         import tempfile
         home = tempfile.mkdtemp(prefix="hvc14_")
         atexit.register(shutil.rmtree, home, ignore_errors=True)
-        write_viewer_caches(home)
-        _HOME.append(home)
-    return _HOME[0]
+        write_viewer_caches(home, gen)
+        _HOME[gen] = home
+    return _HOME[gen]
 
 
 def compressed_update(handle, local, full, parent):
@@ -314,6 +320,9 @@ ACTIONS = [
     # ids the viewers' on-disk caches know (only the viewer-cache configuration finds them), an ordinary child of one of them
     ("XA6", "X", ("A", 6, 43)), ("XA7", "X", ("A", 7, 50)), ("XA8", "X", ("A", 8, 57)), ("XA6other", "X", ("A", 6, 2043)), ("XA6older", "X", ("A", 6, 1043)),
     ("UA2p6", "U", ("A", 2, 2, 6)), ("KA6", "K", ("A", (6,))),
+    # a viewer writes its cache files again (what is on disk changes; the proxy reads them at the region's next handshake), and
+    # a state only the rewritten files know
+    ("WA", "W", ("A",)), ("XA8new", "X", ("A", 8, 3057)),
     # an object the viewers' caches know under another local id than the one it is announced with now
     ("UA3f6", "U", ("A", 3, 6, 0)),
     # an avatar (name/value pairs of every shape) alone and together with an attachment in one message
@@ -377,6 +386,7 @@ class World:
         cfg = getattr(ctx, "shard", 0) % 3
         self.cfg = cfg
         self.home = None
+        self.disk_gen = self.loaded_gen = 0
         settings.ALLOW_AUTO_REQUEST_OBJECTS = cfg == 1
         settings.AUTOMATICALLY_REQUEST_MISSING_OBJECTS = cfg == 1
         settings.USE_VIEWER_OBJECT_CACHE = cfg == 2
@@ -399,6 +409,7 @@ class World:
             self.home = _viewer_home()
             self.old_home = os.environ.get("HOME")
             os.environ["HOME"] = self.home
+            self.disk_gen = self.loaded_gen = 0
             self.load_viewer_cache()
         self.model = Model()
         self.futures = []      # [region, local, type name, future]
@@ -411,11 +422,15 @@ class World:
         region = self.regions["A"]
         region.cache_id = CACHE_ID_A
         region.objects.load_cache()
+        self.loaded_gen = self.disk_gen
         n = len(region.objects.object_cache.region_caches)
-        if n != 2:
-            self.ctx.inconclusive_because(f"expected both viewers' caches for region A to be found, got {n}")
+        if n != 2 + self.disk_gen:
+            self.viol("viewer-cache-not-read-at-handshake", "the region's handshake did not give the object manager what the viewers' "
+                      "cache directories hold now", found=n, on_disk=2 + self.disk_gen)
         else:
             self.ctx.count("viewer_cache_chains_loaded")
+            if self.disk_gen:
+                self.ctx.count("viewer_cache_chains_loaded_after_rewrite")
 
     def close(self):
         try:
@@ -518,8 +533,11 @@ class World:
         elif kind == "X":
             rn, local, crc = args
             hit = False
-            if self.cfg == 2 and rn == "A" and (local, crc) in ALL_CACHED:
-                fidx, parent = ALL_CACHED[(local, crc)]
+            known = ALL_CACHED if not self.loaded_gen else {**ALL_CACHED, **GEN1_ONLY}
+            if self.cfg == 2 and rn == "A" and (local, crc) in known:
+                fidx, parent = known[(local, crc)]
+                if (local, crc) in GEN1_ONLY:
+                    ctx.count("viewer_cache_hits_only_in_rewritten_files")
                 holder = m.live(rn, local)
                 if holder is not None and holder != fidx:
                     return False
@@ -543,6 +561,14 @@ class World:
             self.handle(rn, cached_update(HANDLES[rn], local, crc))
             if hit:
                 self.expect_resolved(rn, local, "UPDATE")
+        elif kind == "W":
+            if self.cfg != 2:
+                return False
+            import os
+            self.path.append(name)
+            self.disk_gen ^= 1
+            os.environ["HOME"] = _viewer_home(self.disk_gen)
+            ctx.count("viewer_cache_rewrites")
         elif kind == "P":
             fidx, family = args
             self.path.append(name)
@@ -733,7 +759,7 @@ class World:
 
     def state_key(self):
         futs = tuple(sorted((e[0], e[1], e[2], e[3].done()) for e in self.futures))
-        return (self.model.key(), futs)
+        return (self.model.key(), futs, self.disk_gen, self.loaded_gen)
 
 
 def replay_path(ctx, path):
@@ -806,6 +832,12 @@ def run(ctx):
     ctx.flag("exhaustive", True)
     ctx.flag("dfs_depth", depth)
     ctx.sample({"dfs_first_actions": firsts, "depth": depth, "states": n, "alphabet": [a[0] for a in ACTIONS]})
+    # directed: the viewer-cache files written again between two lives of the region
+    if ctx.shard % 3 == 2:
+        for path in (["WA", "DA", "XA8new"], ["XA6", "WA", "DA", "XA8new", "UA2p6", "KA6"], ["WA", "DA", "WA", "DA", "XA8new"],
+                     ["WA", "XA8new", "DA", "XA8new", "KA2"], ["XA8", "WA", "DA", "XA8new", "XA8"], ["RA1", "WA", "DA", "XA8new", "DA", "XA8new"]):
+            replay_path(ctx, path)
+            ctx.ev()
     rng = ctx.rng
     for k in range(ctx.pick(25, 1500)):
         if ctx.out_of_time():
